@@ -55,17 +55,22 @@ def uses_foreign_param(events):
     return False
 
 
-def rewraps(events):
+def rewraps(events, results=None):
     """an Input object is wrapped more than once (a scalar wrapper kept next to `Array(x, size)`, or
-    two scalar wrappers of one Input) and a wrapper other than the last one is used somewhere"""
+    two scalar wrappers of one Input) and a wrapper other than the last one is used somewhere.  With the step results
+    given, a wrap / arrayOf command that the DSL rejected does not count (it re-typed nothing)."""
     reg = 0
     src = {}          # wrapper register -> input register it wraps
     wrapped = {}      # input register -> wrapper registers, in order
     used = set()
-    for ev in events:
+    for i, ev in enumerate(events):
         c = ev.get("c")
         if c is None:
             used.update(v for v, _, _ in ev["compile"])
+            continue
+        failed = results is not None and i < len(results) and results[i].get("s") is not None
+        if failed and c["op"] in ("wrap", "arrayOf"):
+            reg += 1
             continue
         if c["op"] == "wrap":
             src[reg] = c["r"]
@@ -167,6 +172,7 @@ def run_graph(res, tier, prop, oracle, project=None, classify=None, spec_key=Non
             res.known.append(f"{f['id']}: {f['what']}")
     recs = k12.run_programs(f"{prop}", n, max_cmds=size, corpus=list(load_corpus(prop)) + list(extra_corpus))
     dist, nmir, nontrivial, diffs, masked = {}, 0, set(), [], {}
+    clean_stats = {"clean": 0, "not_clean": 0}
     samples = []
     for rec in recs:
         if rec["skipped"]:
@@ -196,6 +202,18 @@ def run_graph(res, tier, prop, oracle, project=None, classify=None, spec_key=Non
                 py_ok = not [k for k, _ in viol if k in spec_kinds(spec_key)] if spec_kinds(spec_key) else not viol
                 if lean_ok != py_ok:
                     raise core.Infra(f"Lean spec {spec_key}={mr['spec']} and Python oracle disagree on {rec['id']}: {viol[:3]}")
+            if prop in ("C05", "C03") and "spec" in mr and "mir" in mr and "clean" in mr["spec"] and cm.first_diff(real, mr["mir"]) is None:
+                # tie of the whole-program theorem (C05.trace_edges_consistent): its hypothesis and its conclusion are
+                # evaluated by the driver on this very program; the Python oracle must agree on the real MIR
+                sp = mr["spec"]
+                clean_stats["clean" if sp["clean"] else "not_clean"] += 1
+                if sp["clean"] and not sp["edges"]:
+                    raise core.Infra(f"driver contradicts the theorem trace_edges_consistent on {rec['id']}")
+                if sp["clean"] and prop == "C05":
+                    ev_ = [t for k, t in viol if k == "edge"]
+                    if ev_ and len(res.broken) < 5:
+                        res.broken.append({"decl": "Edge.edgeOK (Lean, proved for every clean run) vs the edge oracle on the real MIR",
+                                           "msg": ev_[0][:400], "program": rec["id"], "events": rec["events"]})
             for kind, text in viol:
                 hyp = classify(kind, rec, real) if classify else None
                 fid = next((f["id"] for f in findings if kind in f["signature"]["kinds"]
@@ -228,6 +246,7 @@ def run_graph(res, tier, prop, oracle, project=None, classify=None, spec_key=Non
         "traces_validated_against_impl": sum(1 for r in recs if not r["skipped"]) + k10stats.get("mirs_compared", 0),
         "disagreements_checked": len(diffs) + k10stats.get("disagreements", 0),
         "masked_by_known_findings": masked,
+        "whole_program_theorem_hypothesis_on_generated_programs": clean_stats,
         "entry_point_composition_K10": k10stats,
         "samples": samples or [{"program": r["id"], "events": r.get("events", [])[:8]} for r in recs[:2]],
     })
